@@ -111,6 +111,11 @@ def run(chk):
                 "tx_timeout/route_timeout in {(25,75)} (thorough + (5,25),(75,150),(150,75)); distinct = scenarios")
     jobs = build(chk)
     quick = chk.tier == "quick"
+    # L2 design model of the node algorithm (NetNode.tla) and its step-by-step binding to the real nodes (TraceNetNode.tla)
+    from checks import netnode
+    netnode.model(chk, quick)
+    netnode.conform(chk, quick)
+    chk.phase("netnode")
     slow = [(0o11, 0o2, 65, nu, na, 25, rt, chk.seed * 131 + i, 3000)
             for i, (nu, na, rt) in enumerate([(nu, na, rt) for nu in (6, 8, 10, 12) for na in (0, 4, 6, 8, 10) for rt in (40, 75)])]
     cross = [(0o11, 0o2, 0o1, 0o3, 0, d, chk.seed * 137 + i, 3000, off) for off in (False, True)
